@@ -150,11 +150,13 @@ func runC10(c *core.Ctx) {
 	checkFixedTableIndices(c, "R10.9")
 	c.Rule("R10.16", "a reply-driven loop over a pipelined batch is left only after the reply of the terminating no-op was read, or on a read error proven not to be an application status (broken connection): nothing of the batch stays unread for the next command", 3)
 	checkReplyLoopExits(c, "R10.16")
+	c.Rule("R10.21", "every error status the protocol layer has an error value for decodes to an error (never to nil = success)", 10)
+	checkEveryErrorStatusDecodes(c, "R10.21")
 	c.Rule("R10.15", "a backend that cannot be reached when a client connects does not bring the proxy down: the accept loop never closes the (non-nil, zero-valued) handler of a failed constructor call (shared with C15)", 2)
 	runR157(c, "R10.15")
-	c.Share(map[string]string{"R6.3": "R10.13"}, runC06)                     // a command whose expected reply is not counted is acknowledged (zero response) when its connection breaks: the old value stays
+	c.Share(map[string]string{"R6.3": "R10.13", "R6.5": "R10.20"}, runC06)                     // a command whose expected reply is not counted is acknowledged (zero response) when its connection breaks: the old value stays
 	c.Share(map[string]string{"R12.1": "R10.10"}, runC12)                    // a key lock leaked on an error path below blocks every later command on that stripe, on every connection
-	c.Share(map[string]string{"R13.4": "R10.11", "R13.9": "R10.12", "R13.5": "R10.17"}, runC13)
+	c.Share(map[string]string{"R13.4": "R10.11", "R13.9": "R10.12", "R13.5": "R10.17", "R13.17": "R10.22"}, runC13)
 	c.Share(map[string]string{"R14.13": "R10.19"}, runC14) // a failed header read must not put a nil header into the shared pool: the next user, on any connection, panics
 	c.Share(map[string]string{"R15.5": "R10.18"}, runC15) // a handler channel left undrained after an error keeps the shared pooled connection's reader blocked: other connections are affected // a pooled connection wedged by a backend fault hangs every request routed to it
 }
@@ -613,6 +615,21 @@ func runR105(c *core.Ctx) {
 					if ssax.IsNilConst(x) {
 						x = bo.Y
 					} else if !ssax.IsNilConst(bo.Y) {
+						// a test against one particular status (err == common.ErrKeyExists): its equal side is an
+						// error-status edge as well
+						y := bo.Y
+						if ssax.SentinelOf(x) != "" {
+							x, y = y, x
+						}
+						if ssax.SentinelOf(y) != "" {
+							if ds := ssax.Defs(x); len(ds) == 1 && ds[0] == e {
+								if bo.Op == token.EQL {
+									starts = append(starts, b.Succs[0])
+								} else {
+									starts = append(starts, b.Succs[1])
+								}
+							}
+						}
 						continue
 					}
 					if ds := ssax.Defs(x); len(ds) == 1 && ds[0] == e {
@@ -654,7 +671,20 @@ func runR105(c *core.Ctx) {
 				}
 				var notDrained, resetFirst ssa.Instruction
 				var trail []*ssa.BasicBlock
+				// edges that are entered with the body already discarded need nothing more
+				drainedAt := func(b *ssa.BasicBlock) bool {
+					done := false
+					ssax.Instrs(fn, func(x ssa.Instruction) {
+						if isDiscardOf(x, h) && x.Block() != b && x.Block().Dominates(b) {
+							done = true
+						}
+					})
+					return done
+				}
 				for _, st := range starts {
+					if drainedAt(st) {
+						continue
+					}
 					if hit, tr := (ssax.Reach{
 						Target: func(x ssa.Instruction) bool { _, ok := x.(*ssa.Return); return ok },
 						Avoid:  func(x ssa.Instruction) bool { return isDiscardOf(x, h) },
